@@ -65,7 +65,7 @@ static void mutate (MEMF *m, const CORP *base, char *desc, size_t dlen)
 /* systematic chunk mutations.  The chunks of the header are found by WALKING the container's chunk list (RIFF/RIFX/RF64 32-bit
 ** little/big-endian sizes, IFF/AIFF big-endian with even padding, CAF 64-bit big-endian, W64 GUID + 64-bit little-endian), so that text
 ** inside a chunk is not mistaken for a chunk; containers without such a list fall back to every printable 4-character tag at an even offset.
-** mutation 'kind' (20 kinds) of chunk 'idx'; returns 0 when idx is past the last chunk found in the first 'span' bytes. */
+** mutation 'kind' (31 kinds) of chunk 'idx'; returns 0 when idx is past the last chunk found in the first 'span' bytes. */
 typedef struct { long at, szoff ; int big ; } CHUNKPOS ;
 static uint64_t get64 (const unsigned char *p, int big) { return big ? ((uint64_t) get32 (p, 1) << 32 | get32 (p + 4, 1)) : ((uint64_t) get32 (p + 4, 0) << 32 | get32 (p, 0)) ; }
 static int walk_chunks (const CORP *base, long span, CHUNKPOS *out, int max)
@@ -106,7 +106,17 @@ static int mutate_marker (MEMF *m, const CORP *base, int idx, int kind, long spa
 		case 6 : put32 (m->d + so, 0xfffffff0u, big) ; break ;
 		case 7 : m->len = found + 8 + ((kind & 1) ? 3 : 0) ; if (m->len > base->len) m->len = base->len ; break ;			/* file ends inside this chunk */
 		case 8 : m->d [found] = 'z' ; m->d [found + 1] = 'Z' ; put32 (m->d + so, 0xfffffff0u, big) ; break ;	/* unknown id AND a size that wraps 32-bit bounds checks */
-		default : m->d [found] = 'z' ; m->d [found + 1] = 'Z' ; put32 (m->d + so, 0xfffffff8u + (uint32_t) (kind & 1) * 5, cp [idx].big < 0 ? 0 : cp [idx].big) ; break ;
+		case 9 : m->d [found] = 'z' ; m->d [found + 1] = 'Z' ; put32 (m->d + so, 0xfffffff8u + (uint32_t) (kind & 1) * 5, cp [idx].big < 0 ? 0 : cp [idx].big) ; break ;
+		default :	/* kinds 20..30: a CONSISTENT smaller chunk: the last 2, 4, ... 16 payload bytes are removed (kinds 20-27), or the payload is cut to its first 4 / 0 bytes (28, 29), or to half (30); the chunk's
+				** own size field and the enclosing RIFF / FORM size are adjusted, so the file is structurally valid and only that chunk is shorter than its writer made it */
+		{	int bo = cp [idx].big < 0 ? 0 : cp [idx].big ; uint32_t sz = get32 (m->d + so, bo), cut ; long hdr = cp [idx].szoff + 4, end ;
+			if (cp [idx].big < 0 || cp [idx].szoff != 4 || found == 0) { mv_free (m) ; return 0 ; }	/* RIFF / IFF style chunks below the top level only */
+			cut = kind <= 27 ? 2u * (uint32_t) (kind - 19) : kind == 28 ? (sz > 4 ? sz - 4 : 0) : kind == 29 ? sz : sz / 2 ; cut &= ~1u ;
+			end = found + hdr + sz ; if (cut == 0 || cut > sz || end > m->len) { mv_free (m) ; return 0 ; }
+			memmove (m->d + end - cut, m->d + end, (size_t) (m->len - end)) ; m->len -= cut ;
+			put32 (m->d + so, sz - cut, bo) ;
+			{ uint32_t outer = get32 (m->d + 4, bo) ; put32 (m->d + 4, outer - cut, bo) ; }
+			} break ;
 		}
 	snprintf (desc, dlen, "chunk#%d(%.4s)@%ld kind %d", idx, base->d + found, found, kind) ;
 	return 1 ;
@@ -124,6 +134,6 @@ static int mutate_field (MEMF *m, const CORP *base, int idx, int kind, long span
 	snprintf (desc, dlen, "u32@%ld=0x%x%s", off, vals [kind >> 1], (kind & 1) ? "BE" : "LE") ;
 	return 1 ;
 }
-#define MUTATE_MARKER_KINDS 20
+#define MUTATE_MARKER_KINDS 31
 
 #endif
